@@ -167,7 +167,13 @@ Definition frame := (fname * list hl)%type.
 (* [cl] maps a lock instance to its class *)
 Definition clm (cl : lock -> cls) (x : hl) : ch := (cl (fst x), snd x).
 
-Fixpoint conforms (cl : lock -> cls) (tbl : lock_table) (st : list frame) (es : list ev) : bool :=
+(* [unb] = the functions the translator found *unbalanced*: some path through them (return, panic,
+   falling off the end) leaves the function while a lock it acquired is neither released nor
+   covered by a defer.  An activation described by the table releases what it acquired before it
+   exits ([EExit] needs an empty frame) — exactly what "balanced" says of the code — so executions
+   that enter an unbalanced function are not described, and the checker below refuses a table that
+   has any. *)
+Fixpoint conforms (cl : lock -> cls) (tbl : lock_table) (unb : list fname) (st : list frame) (es : list ev) : bool :=
   match es with
   | [] => match st with [(_, [])] => true | _ => false end
   | e :: r =>
@@ -176,11 +182,12 @@ Fixpoint conforms (cl : lock -> cls) (tbl : lock_table) (st : list frame) (es : 
       | (f, L) :: below =>
           match e with
           | EAcq l m => site_ok tbl f (map (clm cl) L) (Acquire (cl l) m) &&
-                        conforms cl tbl ((f, (l, m) :: L) :: below) r
-          | ERel l m => memb (l, m) L && conforms cl tbl ((f, remove_one (l, m) L) :: below) r
-          | EEnter g => site_ok tbl f (map (clm cl) L) (Call g) && conforms cl tbl ((g, []) :: st) r
+                        conforms cl tbl unb ((f, (l, m) :: L) :: below) r
+          | ERel l m => memb (l, m) L && conforms cl tbl unb ((f, remove_one (l, m) L) :: below) r
+          | EEnter g => negb (existsb (N.eqb g) unb) && site_ok tbl f (map (clm cl) L) (Call g) &&
+                        conforms cl tbl unb ((g, []) :: st) r
           | EExit => match L, below with
-                     | [], _ :: _ => conforms cl tbl below r
+                     | [], _ :: _ => conforms cl tbl unb below r
                      | _, _ => false
                      end
           end
@@ -299,6 +306,24 @@ Definition no_reentrantb (tbl : lock_table) (a : amap) : bool :=
 Definition lock_discipline_ok (tbl : lock_table) : bool :=
   let a := closure_of tbl in
   closedb tbl a && no_reentrantb tbl a && rankedb (edges_m tbl a) (ranking_of tbl).
+
+(* Functions that intentionally return while holding a lock they acquired would have to be listed
+   here by name — and [conforms] extended to describe them.  The tree has none. *)
+Definition returns_holding_lock : list String.string := [].
+
+Fixpoint name_of (names : list (N * String.string)) (f : fname) : String.string :=
+  match names with
+  | [] => String.EmptyString
+  | (g, n) :: r => if g =? f then n else name_of r f
+  end.
+
+Definition balanced_ok (names : list (N * String.string)) (unb : list fname) : bool :=
+  forallb (fun f => existsb (String.eqb (name_of names f)) returns_holding_lock) unb.
+
+(* THE CHECK, complete: every function releases on every path what it acquired, and the lock
+   discipline holds *)
+Definition lock_discipline_ok_full (names : list (N * String.string)) (unb : list fname) (tbl : lock_table) : bool :=
+  balanced_ok names unb && lock_discipline_ok tbl.
 
 (* diagnostics when the check fails: (function, class held, class acquired) of every site that
    re-acquires a held class or goes against the numbering *)
